@@ -145,7 +145,8 @@ func (g *gen) strLit() string {
 		case k == 3:
 			sb.WriteString(`\t`)
 		case k == 4:
-			sb.WriteString(g.pick(`\xff`, `\xfe`, `\xc0`, `\x80`, `\xc3`, `\xe2\x82`, `\xc3\xa9`, `\xe2\x82\xac`, `\xf0\x9f\x98\x80`))
+			sb.WriteString(g.pick(`\xff`, `\xfe`, `\xc0`, `\x80`, `\xc3`, `\xe2\x82`, `\xc3\xa9`, `\xe2\x82\xac`, `\xf0\x9f\x98\x80`,
+				`\xc2\xa0`, `\xc2\xad`, `\xe2\x80\x8b`, `\xe2\x80\xa8`, `\xef\xbb\xbf`, `\xc2\x85`, `\xee\x80\x80`))
 			g.feat("highbyte")
 		case k < 12:
 			sb.WriteByte(" !#$%&'()*+,-./:;<=>?@[]^_`{|}~"[g.n(31)])
@@ -1581,6 +1582,141 @@ var utf8Frags = []string{`\x80`, `\xbf`, `\xc3`, `\xe2`, `\xf0`, `\xe2\x82`, `\x
 	`\xed\xa0\x80`, `\xf4\x90\x80\x80`, `\xf5\x80\x80\x80`, `\xe0\x9f\xbf`, `\xc3\xa9`, `\xe2\x82\xac`, `\xf0\x9f\x98\x80`, `\xef\xbf\xbd`,
 	`\xc2\x80`, `\xdf\xbf`, `\xe0\xa0\x80`, `\xf4\x8f\xbf\xbf`, `a`, `z`, `0`, ` `, `\n`}
 
+// valid UTF-8 characters of the reference's frozen Unicode table: not printable (written \u.... / \U........ by the
+// quoted text form) and printable ones next to them
+var unicodeFrags = []string{
+	`\xc2\x80`, `\xc2\x85`, `\xc2\x9f`, `\xc2\xa0`, `\xc2\xad`, `\xe2\x80\x8b`, `\xe2\x80\x8d`, `\xe2\x80\x8e`, `\xe2\x80\xa8`, `\xe2\x80\xa9`, `\xe2\x80\xae`,
+	`\xe2\x81\xa0`, `\xef\xbb\xbf`, `\xee\x80\x80`, `\xef\xa3\xbf`, `\xf3\xb0\x80\x80`, // not printable
+	`\xc2\xa1`, `\xc3\xa9`, `\xc3\xbf`, `\xc4\x80`, `\xc5\xbf`, `\xd0\x96`, `\xe2\x82\xac`, `\xe2\x80\x93`, `\xe3\x81\x82`, `\xe6\x97\xa5`, `\xe4\xb8\x80`,
+	`\xef\xbf\xbd`, `\xf0\x9f\x98\x80`, `\xf0\x9f\x99\x8f`, // printable
+	`a`, `"`, `\\`, `\x7f`, `\t`, `z`}
+
+func (g *gen) unicodeStr() string {
+	n := 1 + g.n(5)
+	var sb strings.Builder
+	sb.WriteByte('"')
+	for i := 0; i < n; i++ {
+		f := unicodeFrags[g.n(len(unicodeFrags))]
+		if f == `"` {
+			f = `\"`
+		}
+		sb.WriteString(f)
+	}
+	sb.WriteByte('"')
+	return sb.String()
+}
+
+// wherever a value is rendered: strings nested in arrays and maps, as map keys, in error text, nested twice
+func (g *gen) unicodeStmt() string {
+	g.feat("unicode-quoted-text")
+	var sb strings.Builder
+	w := func(f string, a ...any) { sb.WriteString(fmt.Sprintf(f, a...) + "\n") }
+	s1, s2 := g.fresh("qs"), g.fresh("qs")
+	w("%s = %s", s1, g.unicodeStr())
+	w("%s = %s", s2, g.unicodeStr())
+	switch g.n(5) {
+	case 0:
+		w("println(len(%s), [%s], {%s: %s})", s1, s1, s2, s1)
+	case 1:
+		w("println([%s, %s, \"plain\"], {\"k\": [%s, {%s: 1}]})", s1, s2, s2, s1)
+	case 2:
+		w("print([[%s]], %s, [%s + %s])", s1, s1, s1, s2)
+		w("println({%s: %s, %s: 2, \"a\": %s})", s1, s2, s2, s1)
+	case 3:
+		c := g.fresh("qc")
+		w("for %s = %s {print([%s])}", c, s1, c)
+		w("println([first(%s), rest(%s)], catch(error([%s])).value)", s2, s2, s1)
+	default:
+		big := g.fresh("qa")
+		w("%s = [%s, %s, \"1\", \"2\", \"3\", \"4\", \"5\", \"6\", %s, %s]", big, s1, s2, s1, g.unicodeStr())
+		w("println(%s, %s[-1:], {1: %s, 2: %s, 3: 3, 4: 4, 5: [%s]})", big, big, s1, s2, s2)
+	}
+	return strings.TrimSuffix(sb.String(), "\n")
+}
+
+// histories of calls (memoization is on) with container arguments that are ==-equal but differently typed
+// (3 and 3.0 print alike and compare equal): every call must be evaluated on its own argument
+func (g *gen) typedTwinStmt() string {
+	g.feat("typed-twin-args")
+	var sb strings.Builder
+	w := func(f string, a ...any) { sb.WriteString(fmt.Sprintf(f, a...) + "\n") }
+	f, x, y := g.fresh("tw"), g.fresh("tx"), g.fresh("ty")
+	n := []int{2, 5, 8, 9, 9, 10, 12, 12}[g.n(8)]
+	isMap := g.pct(35)
+	if isMap {
+		n = []int{2, 4, 5, 5, 6, 9}[g.n(6)]
+	}
+	vals := make([]int, n)
+	for i := range vals {
+		vals[i] = 1 + 2*g.n(8) // odd: /2 tells integer from float
+	}
+	flt := map[int]bool{0: true}
+	for i := 0; i < n; i++ {
+		if g.pct(25) {
+			flt[i] = true
+		}
+	}
+	lit := func(twin bool) string {
+		var ps []string
+		for i, v := range vals {
+			e := fmt.Sprint(v)
+			if twin && flt[i] {
+				e += ".0"
+			}
+			if isMap {
+				k := fmt.Sprint(i)
+				if twin && g.pct(20) {
+					k += ".0"
+				}
+				ps = append(ps, k+": "+e)
+			} else {
+				ps = append(ps, e)
+			}
+		}
+		if isMap {
+			return "{" + strings.Join(ps, ", ") + "}"
+		}
+		return "[" + strings.Join(ps, ", ") + "]"
+	}
+	body := g.pick("a[0] / 2", "[a[0] / 2, a[0] == "+fmt.Sprint(vals[0])+"]", "a[0] * 3 / 2 + len(a)", "r = 0\nfor i = len(a) {r = r + a[i] / 2}\nr")
+	if isMap {
+		body = g.pick("a[0] / 2", "[a[0] / 2, a[0] == "+fmt.Sprint(vals[0])+", len(a)]", "first(a).value / 2")
+	}
+	pr := ""
+	if g.pct(40) {
+		pr = "println(\"in " + f + "\", len(a))\n"
+	}
+	nested := g.pct(25)
+	arg := func(v string) string {
+		if nested {
+			return "[" + v + ", 1]"
+		}
+		return v
+	}
+	if nested {
+		body = strings.ReplaceAll(body, "a[", "a[0][")
+		body = strings.ReplaceAll(body, "first(a)", "first(a[0])")
+		body = strings.ReplaceAll(body, "len(a)", "len(a[0])")
+	}
+	w("%s = func(a) {%s%s}", f, pr, body)
+	w("%s = %s", x, lit(false))
+	w("%s = %s", y, lit(true))
+	w("println(%s == %s)", x, y)
+	order := [][]string{{x, y, x}, {y, x, y}, {x, x, y}}[g.n(3)]
+	var calls []string
+	for _, v := range order {
+		calls = append(calls, f+"("+arg(v)+")")
+	}
+	if g.pct(50) {
+		w("println(%s)", strings.Join(calls, ", "))
+	} else {
+		for _, c := range calls {
+			w("println(%s)", c)
+		}
+	}
+	return strings.TrimSuffix(sb.String(), "\n")
+}
+
 func (g *gen) utf8Str() string {
 	n := 1 + g.n(6)
 	var sb strings.Builder
@@ -1726,14 +1862,18 @@ func (g *gen) edgeProgram() string {
 	n := 1 + g.n(3)
 	for i := 0; i < n; i++ {
 		switch k := g.n(100); {
-		case k < 27:
+		case k < 18:
 			parts = append(parts, g.edgeCmpStmt())
-		case k < 40:
+		case k < 28:
 			parts = append(parts, g.variadicNestStmt())
-		case k < 60:
+		case k < 42:
 			parts = append(parts, g.utf8Stmt())
-		case k < 80:
+		case k < 56:
 			parts = append(parts, g.sideEffectStmt())
+		case k < 72:
+			parts = append(parts, g.unicodeStmt())
+		case k < 88:
+			parts = append(parts, g.typedTwinStmt())
 		default:
 			parts = append(parts, g.manyArgsStmt())
 		}
@@ -1947,7 +2087,7 @@ func (g *gen) stmt(nest int, ret ty) string {
 			return g.idiomStmt()
 		}
 		if g.pct(40) && !g.inFunc() && g.inLoop == 0 {
-			switch g.n(5) {
+			switch g.n(7) {
 			case 0:
 				return g.edgeCmpStmt()
 			case 1:
@@ -1956,6 +2096,10 @@ func (g *gen) stmt(nest int, ret ty) string {
 				return g.utf8Stmt()
 			case 3:
 				return g.sideEffectStmt()
+			case 4:
+				return g.unicodeStmt()
+			case 5:
+				return g.typedTwinStmt()
 			}
 			return g.variadicNestStmt()
 		}
